@@ -34,7 +34,7 @@ def check(cx):
     for callee, table in ((ALLOC, ALLOC_CALLERS), (DEALLOC, DEALLOC_CALLERS)):
         cx.guard(r1, callee, p.fn, callee)
         for c in K.callers_of(p, callee, set(table)):
-            cx.verdict(c in table, r1, "%s<-%s" % (callee.rsplit("::", 1)[-1], c), p.fn(c).where(), table.get(c, ""),
+            cx.verdict(c in table, r1, "%s<-%s" % (callee.rsplit("::", 1)[-1], c), p.where_of(c), table.get(c, ""),
                        "%s is a new caller of %s: pages are %s outside the audited sites" % (
                            c, callee, "allocated" if callee == ALLOC else "returned to the free list"))
     for setter in ("set_first_free_page", "set_last_free_page", "get_next_page"):
@@ -42,7 +42,7 @@ def check(cx):
         cx.guard(r1, sid, p.fn, sid)
         for c in K.callers_of(p, sid, {ALLOC, DEALLOC}):
             root = p.fn(c).root or c
-            cx.verdict(root in (ALLOC, DEALLOC), r1, "%s<-%s" % (setter, c), p.fn(c).where(), "inside allocate/dealloc",
+            cx.verdict(root in (ALLOC, DEALLOC), r1, "%s<-%s" % (setter, c), p.where_of(c), "inside allocate/dealloc",
                        "%s is called from %s: the free list is edited outside allocate_page/dealloc_page" % (setter, c))
 
     r2 = cx.rule("C11.2", "MPR: in allocate_page the file grows (get_next_page) only on the branch where the free list "
